@@ -1,7 +1,7 @@
 (* C08 — treespec inspection, constructors, transform and compose are consistent.
    Statements only; proofs in proofs/SpecProofs.v and proofs/InspectProofs.v. *)
 From OptreeModel Require Import Base Tree Flatten Unflatten Spec ArraySpec Construct ComposeArr TransformArr Repr.
-From OptreeProofs Require Import SpecProofs InspectProofs ArrayProofs ConstructProofs ComposeArrProofs TransformArrProofs ReprProofs Subst TransformGenProofs.
+From OptreeProofs Require Import SpecProofs InspectProofs ArrayProofs ConstructProofs ComposeArrProofs TransformArrProofs ReprProofs Subst TransformGenProofs TransformAllProofs.
 
 (* Every treespec flatten returns is the post-order encoding of a well-formed structured treespec
    (arity, num_leaves and num_nodes consistent at every node) whose leaf count is the number of
@@ -224,6 +224,60 @@ Example C08_transform_general_example :
                     [ {| trav := encode lst; snil := false; sns := 2 |}; {| trav := encode pair; snil := false; sns := 0 |} ]
   = Ok {| trav := encode (mkT (st_node pair) [lst; pair]); snil := false; sns := 2 |}.
 Proof. vm_compute. reflexivity. Qed.
+
+(* TRANSFORM WITH BOTH FUNCTIONS ARBITRARY. The loop of treespec.cpp with one answer per node of the array in call
+   order (theories/TransformArr.v tr_all / arr_transform_all; None = the function of that node's class is absent
+   or returned its argument): a leaf is replaced by its answer; an internal node's answer must have `arity`
+   leaves and `arity + 1` nodes, and only its root node is used, emitted with the counters summed from the
+   pending pairs of the node's already transformed children; num_extra_leaves / num_extra_nodes accumulate as
+   in the C++.  For every well-formed outer treespec and every list of well-formed answers related to it by
+   the tree-level transform Tr (leaf := answer, header := the answer's root, children transformed recursively)
+   the pass returns the encoding of the transformed tree with the common namespace, or the option error; none
+   of the internal checks fires. *)
+Theorem C08_cpp_transform_pass_both_functions :
+  forall a answers t',
+  wf_stree (stree_of a) = true ->
+  Forall (fun o => match o with Some b => wf_stree (stree_of b) = true | None => True end) answers ->
+  Tr (stree_of a) (map (option_map stree_of) answers) t' ->
+  arr_transform_all (spec_of a) (map (option_map spec_of) answers) =
+  match tr_opts_s (ss_nil a) (ss_ns a) (given answers) with
+  | Ok ns => Ok (spec_of {| stree_of := t'; ss_nil := ss_nil a; ss_ns := ns |})
+  | Err e => Err e
+  end.
+Proof. exact arr_transform_all_spec. Qed.
+Print Assumptions C08_cpp_transform_pass_both_functions.
+
+(* what the two size checks accept for an internal node is exactly a one-level treespec of the node's arity
+   (root with `arity` leaf children), never a leaf *)
+Theorem C08_transform_accepted_answer_is_one_level :
+  forall n x, wf_stree x = true -> st_leaves x = narity n -> st_nodes x = S (narity n) ->
+  narity (st_node x) = narity n /\ is_leaf_node (st_node x) = false.
+Proof. exact accepted_answer_one_level. Qed.
+Print Assumptions C08_transform_accepted_answer_is_one_level.
+
+(* anything else is a ValueError raised at that node *)
+Theorem C08_transform_rejected_answer :
+  forall n ns b answers out stack xl xn,
+  is_leaf_node n = false -> root_leaves b <> narity n \/ length b <> S (narity n) ->
+  tr_all (n :: ns) (Some b :: answers) out stack xl xn = Err ValueError.
+Proof. exact tr_all_rejects. Qed.
+Print Assumptions C08_transform_rejected_answer.
+
+(* "transform with identity functions is the identity": with every function absent or returning its argument
+   the transformed tree is the tree itself; the transformed tree is unique and well-formed in general *)
+Theorem C08_transform_identity_functions :
+  forall t, wf_stree t = true -> Tr t (repeat None (st_nodes t)) t.
+Proof. exact tr_identity. Qed.
+Print Assumptions C08_transform_identity_functions.
+
+Theorem C08_transform_result_unique_wf :
+  forall t aa t1, wf_stree t = true -> wfa aa -> Tr t aa t1 ->
+  wf_stree t1 = true /\ length aa = st_nodes t /\ forall t2, Tr t aa t2 -> t2 = t1.
+Proof.
+  intros t aa t1 W Waa H. destruct (aok _ _ _ H W Waa) as [W1 L].
+  split; [exact W1|]. split; [exact L|]. intros t2 H2. exact (tr_functional _ _ _ _ W Waa H2 H).
+Qed.
+Print Assumptions C08_transform_result_unique_wf.
 
 (* REPR. PyTreeSpec::ToStringImpl as serialization.cpp runs it — the agenda machine over the post-order node
    array (theories/Repr.v; the text as a list of tokens: pieces of the documented notation and the texts
